@@ -33,14 +33,31 @@ int main(void) {
 		if (k < IN.n[8]) stack_push(e.metadata_stack, mk_meta());
 		if (k < IN.n[9]) stack_push(e.table_stack, &dummy[3]);
 	}
+#ifdef OWNERSHIP
+	/* C01 ownership: a reference-style note's content block lives in the document tree (free_para == false) and is freed with the tree;
+	   an inline note owns a detached paragraph (free_para == true).  With the pool disabled every token is freed individually:
+	   reset must free each exactly once (CBMC: double free / use after free). */
+	{
+		token *root = token_new(DOC_START_TOKEN, 0, 8), *blk = token_new(BLOCK_PARA, 0, 4), *txt = token_new(TEXT_PLAIN, 0, 4);
+		ASSUME(root && blk && txt); token_append_child(blk, txt); token_append_child(root, blk);
+		e.root = root;
+		footnote *f = mk_note(); f->content = blk; f->free_para = false; stack_push(e.footnote_stack, f);
+		footnote *g = mk_note(); g->content = token_new(BLOCK_PARA, 4, 2); g->free_para = true; stack_push(e.citation_stack, g);
+		footnote *h = mk_note(); h->content = blk; h->free_para = false; stack_push(e.glossary_stack, h);
+		footnote *a = mk_note(); a->content = blk; a->free_para = false; stack_push(e.abbreviation_stack, a);
+	}
+#else
 	if (IN.has_root) { e.root = malloc(sizeof(token)); ASSUME(e.root != 0); memset(e.root, 0, sizeof(token)); e.root->tail = e.root; } else e.root = 0;
+#endif
 	mmd_engine_reset(&e);
 	CHECK(e.root == 0, "reset: no parse tree of the previous conversion survives");
 	CHECK(e.abbreviation_stack->size == 0 && e.citation_stack->size == 0 && e.footnote_stack->size == 0 && e.glossary_stack->size == 0, "reset: no note definitions survive");
 	CHECK(e.link_stack->size == 0 && e.metadata_stack->size == 0, "reset: no link definitions or metadata survive");
 	CHECK(e.critic_stack->size == 0 && e.definition_stack->size == 0 && e.header_stack->size == 0 && e.table_stack->size == 0, "reset: no block bookkeeping survives");
 	CHECK(e.asset_hash == 0, "reset: no assets survive");
+#ifndef OWNERSHIP
 	COVER(IN.n[4] == 2 && IN.n[1] == 2 && IN.n[7] == 2); COVER(IN.has_root);
+#endif
 	COVER(1);
 	return 0;
 }
